@@ -194,7 +194,7 @@ FvaClauses(ev, A) ==
                [] e.mode = "bracket" ->
                     If(\E k \in K : mn[k] < e.outer[k][1] * Scale - Tol \/ mx[k] > e.outer[k][2] * Scale + Tol, "range_outside_outer_bracket")
                     \cup If(e.why # "pfba_undecidable" /\ \E k \in K : mn[k] > e.inner[k][1] * Scale + Tol \/ mx[k] < e.inner[k][2] * Scale - Tol,
-                            "range_misses_lattice_points")
+                            IF s.loopless THEN "loopless_range" ELSE "range_misses_lattice_points")
                [] OTHER -> {})
        \* loopless ranges lie inside the plain ones reported just before for the same request
        \cup If(s.loopless /\ fvas.valid /\ fvas.rl = rl /\ fvas.num = s.num /\ fvas.den = s.den
@@ -223,6 +223,11 @@ LoopClasses(m, s, o, e) ==
   LET rl == ReqList(m, s) IN
   {LoopEntryClass(m, rl[k], o.min[k].i, e.r[k][1], e.r[k][2]) : k \in {j \in 1..Len(rl) : ~Near(o.min[j].i, e.r[j][1] * Scale, Tol)}}
   \cup {LoopEntryClass(m, rl[k], o.max[k].i, e.r[k][1], e.r[k][2]) : k \in {j \in 1..Len(rl) : ~Near(o.max[j].i, e.r[j][2] * Scale, Tol)}}
+\* bracket mode: only "a loop-free lattice extreme lies outside the reported range" is a loop-related failure
+LoopClassesInner(m, s, o, e) ==
+  LET rl == ReqList(m, s) IN
+  {LoopEntryClass(m, rl[k], o.min[k].i, e.inner[k][1], e.inner[k][2]) : k \in {j \in 1..Len(rl) : o.min[j].i > e.inner[j][1] * Scale + Tol}}
+  \cup {LoopEntryClass(m, rl[k], o.max[k].i, e.inner[k][1], e.inner[k][2]) : k \in {j \in 1..Len(rl) : o.max[j].i < e.inner[j][2] * Scale - Tol}}
 
 FvaTags(ev, A) ==
   LET s == ev.step m == cur o == ev.obs IN
@@ -233,7 +238,10 @@ FvaTags(ev, A) ==
        \cup If(~A.signok, "optimum_sign_opposes_direction")
        \cup (IF s.loopless /\ o.raises = "none" /\ e.mode = "exact" /\ AllNum(o.min) /\ AllNum(o.max)
                 /\ Len(o.min) = Len(e.r) /\ Len(o.max) = Len(e.r)
-             THEN LoopClasses(m, s, o, e) ELSE {})
+             THEN LoopClasses(m, s, o, e)
+             ELSE IF s.loopless /\ o.raises = "none" /\ e.mode = "bracket" /\ AllNum(o.min) /\ AllNum(o.max)
+                     /\ Len(o.min) = Len(e.inner) /\ Len(o.max) = Len(e.inner)
+             THEN LoopClassesInner(m, s, o, e) ELSE {})
 
 \* an optimal FBA solution lies inside the plain ranges reported just before
 FbaInsideFva(ev) ==
